@@ -93,6 +93,8 @@ def coin_and_probability(run, f, k, rule='R11.coin', coin_names=('randint',)):
         return
     block = k.block
     from ..names import return_names
+    from ..rules import rngsites
+    rngsites.check_fresh_per_iteration(run, f)      # one coin per undetermined observable, drawn inside the loop
     rn = return_names(f)
     lp = rn[-1] if rn else 'log2prob'
     # find the If whose body is the block
